@@ -402,10 +402,12 @@ def numPercentFrom (L : Layout) : Nat → List SVal → Bool
   | _, [x] => x.endsNum && (startsComment L.trail || (L.trail.isEmpty && L.last.isSome))
   | i, x :: y :: r => (x.endsNum && startsComment (L.sep i)) || numPercentFrom L (i + 1) (y :: r)
 
-/-- **trigger predicate of C11-K2**: a numeric literal directly followed by '%' (`42%c`):
-    `scanf_fmtstr` ends the numeric word at white space, ')' , ']' and "..." but not at the comment
-    sign, so no format matches the word and the text is rejected, although `true%c`, `"s"%c`,
-    `'a'%c`, `[1]%c`, `abc%c`, `#12345678%c` are accepted -/
+/-- a numeric literal directly followed by '%' (`42%c`).  Formerly the trigger predicate of the
+    finding C11-K2: `scanf_fmtstr` ended the numeric word at white space, ')' , ']' and "..." but not
+    at the comment sign, so no format matched the word and the text was rejected, although `true%c`,
+    `"s"%c`, `'a'%c`, `[1]%c`, `abc%c`, `#12345678%c` were accepted.  Repaired by fix C11-08 (the word
+    ends at '%' too, `numWordLen`); the predicate only serves to show that such layouts are covered
+    (`num_comment_reads`, `exTightNum` in Props/C11.lean). -/
 def hasNumPercent (s : List SVal) (L : Layout) : Bool := numPercentFrom L 0 s
 
 /-- the values with the separators between them -/
